@@ -812,6 +812,7 @@ func buildWorld(src cs.Src, c *ev.Case, openOverflow bool) (*sim, cs.WorldOpts) 
 	}
 	p.Validator.EarlyWithdrawalPenalty = uint64([]int{0, 20, 100}[src.Int("ewp", 0, 2)])
 	p.Validator.StakePercentForSubsidizedCommittee = uint64([]int{1, 33, 100}[src.Int("subpct", 0, 2)])
+	p.Fee.SendFee = uint64([]int{0, 10000, 10000}[src.Int("sendfee", 0, 2)]) // zero-fee sends write nothing but their own effect
 	o.Params = p
 	s.mint0 = uint64([]int{0, 7, 1000, 80_000_000}[src.Int("mint0", 0, 3)])
 	s.halv = uint64([]int{1, 3, 5, 1000}[src.Int("halv", 0, 3)])
